@@ -17,6 +17,8 @@ def gen_history(rng, maxops):
     dense_bias = rng.random()
 
     def rset():
+        if rng.random() < 0.15:          # a LARGE index set (much larger than the vectors): every coordinate, or most of them
+            return list(range(D)) if D <= 80 or rng.random() < 0.5 else rng.sample(range(D), 70)
         k = rng.randint(0, min(D + 2, 12)) if rng.random() < 0.7 else rng.randint(0, 30)
         if rng.random() < dense_bias:
             return [rng.randrange(D) for _ in range(k)]
